@@ -2,7 +2,7 @@
    External behaviour (net.ParseIP, net.ResolveIPAddr, IP.String, regexp matching) is universally
    quantified; what is assumed about Go's net package appears as explicit hypotheses. *)
 From CJ Require Import Common.Base C06.Model C06.Proofs C06.IPText C06.IPTextProofs C07.Model C06.Dialed.
-From CJ Require C06.ModelIngest C06.ProofsIngest.
+From CJ Require C06.ModelIngest C06.ProofsIngest C06.Bridge07.
 Module MI := CJ.C06.ModelIngest.
 
 (* An accepted covert string is the literal text of the single address the resolver returned for
@@ -208,6 +208,25 @@ Proof.
 Qed.
 Print Assumptions C06_dial_target_is_checked_concrete.
 
+(* The resolver hypotheses of the theorem above, discharged: literals are proved (IPTextWf.v: every byte ParseAddr
+   returns is < 256; a zone is a piece of the host), so they reduce to a statement about the name system's answers. *)
+Theorem C06_resolver_laws_from_names :
+  forall names, ProofsIngest.names_ok names -> zone_law (resolve_with names) /\ resolver_wf (resolve_with names).
+Proof. exact ProofsIngest.names_ok_laws. Qed.
+Print Assumptions C06_resolver_laws_from_names.
+
+Theorem C06_dial_target_is_checked_names :
+  forall names names_later re_match pol s out lk,
+    ProofsIngest.names_ok names ->
+    parse_or_resolve parse_ip_c (resolve_with names) ip_str_c re_match pol s = (Some out, lk) ->
+    exists host port a z a',
+      split_host_port s = Some (host, port) /\ resolve_with names host = Some (a, z) /\
+      valid_ip a = true /\ blocked pol a = false /\
+      dial_target (resolve_with names_later) out = Some (a', z, port) /\
+      norm a' = norm a /\ blocked pol a' = false.
+Proof. exact ProofsIngest.dial_target_is_checked_names. Qed.
+Print Assumptions C06_dial_target_is_checked_names.
+
 (* A permitted canonical literal is returned unchanged, for the concrete functions and ANY name system:
    no assumption about Go's net package is left (G1 for the joined text is parse_ip_c_joined). *)
 Theorem C06_permitted_literal_unchanged_concrete :
@@ -273,16 +292,18 @@ Print Assumptions C06_handoffs_carry_admitted_literal.
 
 (* The same down to the dial site, with the concrete text functions: the dialled string is the literal host:port of
    the single address resolved at admission, which the policy in force then permitted (subnets and domain patterns,
-   16-bit port), and net.Dial of it — in ANY later state of the name system — reaches that address and that port. *)
+   16-bit port, no zone on an IPv4 form), and net.Dial of it — in ANY later state of the name system — reaches that
+   address and that port.  Asked of the name system only: answers made of bytes, no bracket in a zone (names_ok);
+   everything about literals (parsing, printing, zones, byte ranges) is proved for the concrete functions. *)
 Theorem C06_every_dial_is_checked :
   forall (names_at : nat -> bytes -> option (ipraw * bytes)) names_later re_match pol0 ops i k c,
-    (forall m, zone_law (resolve_with (names_at m))) -> (forall m, resolver_wf (resolve_with (names_at m))) ->
+    (forall m, ProofsIngest.names_ok (names_at m)) ->
     In (i, MI.EDial k c) (snd (MI.run parse_ip_c (fun m => resolve_with (names_at m)) ip_str_c re_match pol0 0 [] ops)) ->
     exists pre r ok post host port a z a',
       ops = pre ++ MI.IIngest r ok :: post /\ (length pre <= i)%nat /\ MI.g_key r = k /\
       split_host_port (MI.g_covert r) = Some (host, port) /\ port_ok port = true /\
       dom_blocked re_match (MI.policy_after_i pol0 pre) host = false /\
-      resolve_with (names_at (length pre)) host = Some (a, z) /\ valid_ip a = true /\
+      resolve_with (names_at (length pre)) host = Some (a, z) /\ valid_ip a = true /\ zoned_v4 a z = false /\
       blocked (MI.policy_after_i pol0 pre) a = false /\
       c = join_host_port (ip_text ip_str_c a z) port /\
       dial_target (resolve_with names_later) c = Some (a', z, port) /\
@@ -313,3 +334,16 @@ Theorem C06_expired_is_untracked :
     MI.find_entry (snd (fst (MI.step parse_ip resolve_at ip_str re_match pol n st (MI.IExpire k)))) k = None.
 Proof. exact ProofsIngest.expired_is_untracked. Qed.
 Print Assumptions C06_expired_is_untracked.
+
+(* C06's ingest model and C07's admission model (tied to the code by C07's own lane: whole messages, both families,
+   probes, sharing) agree on what becomes connectable and with which covert: for a registration tracked on neither side,
+   C07's ingest announces it with covert lit exactly when C06's model holds a VALID object with covert lit for it. *)
+Theorem C06_agrees_with_C07_admission :
+  forall parse_ip resolve ip_str re_match live cfg (key : reg -> N) kind pol n st st' r ok lit,
+    tracked st r = false -> MI.find_entry st' (key r) = None ->
+    In (Announce (set_covert r lit)) (snd (ingest (covert_fn parse_ip ip_str re_match resolve pol) live cfg st r)) <->
+    MI.find_entry (fst (MI.ingest parse_ip (fun _ => resolve) ip_str re_match pol n st'
+                          (Bridge07.proj live cfg key kind r) ok)) (key r)
+      = Some {| MI.e_key := key r; MI.e_kind := kind; MI.e_covert := lit; MI.e_valid := true |}.
+Proof. exact Bridge07.bridge_announced. Qed.
+Print Assumptions C06_agrees_with_C07_admission.
